@@ -23,7 +23,6 @@ for p in mutants/*${pat}*.patch; do
   n=$(basename $p .patch)
   suite="-"
   for c in $(checks_for $n); do
-    case $c in C18|C19) continue ;; esac   # those harnesses have their own mutant scripts
     o=$(tools/mutant.sh $p $c --tier quick 2>&1); rc=$?
     if echo "$o" | grep -q "^VIOLATION property=$c"; then v=caught; elif echo "$o" | grep -q "MUTANT-BUILD-FAILED\|error: patch failed\|does not apply"; then v=build-or-apply-failed; elif [ $rc -eq 0 ]; then v=MISSED; else v="rc=$rc"; fi
     sig=$(echo "$o" | grep -E "^  [a-zA-Z0-9:_+./-]+: " | head -1 | cut -c3-140)
